@@ -68,14 +68,15 @@ func init() {
 			{Name: "faults", Weight: 4, Bubble: true, Run: func(e *Env) {
 				t := e.T
 				cfg := srvCfg{prop: "C15", nConns: t.Range(3, 4), msgsPer: [2]int{1, 5}, parkPct: 25, answerPct: 100,
-					panicPct: 1, malformed: true, rst: true, acceptErrs: true, lateConn: true, extraReg: true}
+					panicPct: 1, malformed: true, rst: true, acceptErrs: true, lateConn: true, extraReg: true,
+					nilHandler: t.Chance(1, 4), tlsStall: t.Chance(1, 4)}
 				newSrvWorld(e, cfg).run()
 			}},
 			{Name: "sctp-faults", Weight: 1, Bubble: true, Run: c15Sctp},
 			{Name: "sweep-placement", Bubble: true, Run: c15Sweep, SweepN: c15SweepN, QuickSweep: true, Exhaustive: true,
 				SweepNote: "3 connections x 3 requests; one fault of each of 11 kinds (handler panic, reset mid-message, 9 kinds of undecodable message) at every (connection, position), with 0 or 3 temporary accept errors first; the delivery/release schedule of each case is seeded: 264 cases"},
 		},
-		MustProbes: []string{"late-connection", "malformed-reported", "recovered-panic-logged", "runtime-registration", "sctp-read-error", "long-accept-error-run"},
+		MustProbes: []string{"late-connection", "malformed-reported", "recovered-panic-logged", "runtime-registration", "sctp-read-error", "long-accept-error-run", "default-serve-mux", "tls-handshake-stalled"},
 	})
 }
 
